@@ -276,6 +276,20 @@ def run_cases(binary, cases, tmo=20, shards=None, env=None, keep=None, wrapper=N
             futs = [ex.submit(_run_shard, binary, path, n, tmo, e, wrapper, max_abnormal) for path, n in chunks]
             for f in futs:
                 out.extend(f.result())
+        # a time-out on a loaded machine is not yet a hang: each such case (at most 8) is re-run alone with six times the budget and
+        # only a repeated time-out is reported (a false alarm would discredit every real one)
+        hung = [k for k, r in enumerate(out) if r is not None and r.get("outcome") == "hang"][:8]
+        if hung:
+            def again(k):
+                path1 = os.path.join(tmpd, "retry%d.ndjson" % k)
+                with open(path1, "w") as f:
+                    f.write(json.dumps(cases[k], separators=(",", ":")) + "\n")
+                return _run_shard(binary, path1, 1, max(6 * tmo, 120), e, wrapper, 1)[0]
+            with cf.ThreadPoolExecutor(max_workers=2) as ex:
+                for k, r in zip(hung, ex.map(again, hung)):
+                    if r is not None and r.get("outcome") != "hang":
+                        r["retried_after_timeout"] = True
+                        out[k] = r
     finally:
         if keep:
             shutil.move(tmpd, keep)
